@@ -20,7 +20,9 @@ import (
 	"github.com/regclient/regclient/internal/reghttp"
 	zzos "github.com/regclient/regclient/internal/zzos"
 	"github.com/regclient/regclient/internal/zzreg"
+	"github.com/regclient/regclient/scheme"
 	"github.com/regclient/regclient/scheme/reg"
+	"github.com/regclient/regclient/types/descriptor"
 	"github.com/regclient/regclient/types/ref"
 )
 
@@ -697,5 +699,113 @@ func ZZC03_copy_cancel() {
 			got, ok = ra.Repo("tgt").Blobs[d.String()]
 		}
 		zzAssert(ok && string(got) == string(w.bytes[d]), "C03_closure_present_and_identical")
+	}
+}
+
+// Referrer filters: the image has two artifacts of different types (one of them
+// annotated). The copy is asked for referrers with a symbolic list of 1-2
+// filters (artifact type a / artifact type b / annotation / everything). Every
+// referrer selected by at least one of the filters arrives with its content and
+// is listed at the target exactly once.
+func ZZC03_copy_referrer_filters() {
+	zzSmall = true
+	w := zzBuildWorld()
+	ra, rb := zzreg.New(zzHostA), zzreg.New(zzHostB)
+	ra.ValidateRefs, rb.ValidateRefs = false, false
+	net := &zzNet{regs: map[string]*zzreg.Registry{zzHostA: ra, zzHostB: rb}, ext: map[string][]byte{}}
+	reghttp.ZZHook_Client_Do = net.do
+	w.zzLoadRepo(rb, "src", "v1")
+	rb.ReferrersAPI = zzBool("source_has_referrers_api")
+	ra.ReferrersAPI = zzBool("target_has_referrers_api")
+	rSrc, _ := ref.New(zzHostB + "/src:v1")
+	rTgt, _ := ref.New(zzHostA + "/tgt:v1")
+	emptyDig := rb.PutBlob("src", []byte("{}"))
+	types := []string{"application/example.sig", "application/example.sbom"}
+	payload := [][]byte{[]byte("signature"), []byte("bill of materials")}
+	annot := []map[string]string{nil, {"vnd.example.kind": "x"}}
+	var arts [][]byte
+	var artDigs, blobDigs []string
+	var entries []interface{}
+	for i := range types {
+		bd := rb.PutBlob("src", payload[i])
+		m := map[string]interface{}{
+			"schemaVersion": 2, "mediaType": "application/vnd.oci.image.manifest.v1+json", "artifactType": types[i],
+			"config":  map[string]interface{}{"mediaType": "application/vnd.oci.empty.v1+json", "digest": emptyDig, "size": 2},
+			"layers":  []interface{}{map[string]interface{}{"mediaType": "application/octet-stream", "digest": bd, "size": len(payload[i])}},
+			"subject": map[string]interface{}{"mediaType": w.top.MediaType, "digest": w.top.Digest.String(), "size": w.top.Size},
+		}
+		e := map[string]interface{}{"mediaType": "application/vnd.oci.image.manifest.v1+json", "artifactType": types[i]}
+		if annot[i] != nil {
+			m["annotations"] = annot[i]
+			e["annotations"] = annot[i]
+		}
+		art, _ := json.Marshal(m)
+		ad := rb.PutManifest("src", "", "application/vnd.oci.image.manifest.v1+json", art)
+		e["digest"], e["size"] = ad, len(art)
+		arts, artDigs, blobDigs, entries = append(arts, art), append(artDigs, ad), append(blobDigs, bd), append(entries, e)
+	}
+	if !rb.ReferrersAPI {
+		idx, _ := json.Marshal(map[string]interface{}{
+			"schemaVersion": 2, "mediaType": "application/vnd.oci.image.index.v1+json", "manifests": entries,
+		})
+		rb.PutManifest("src", "sha256-"+w.top.Digest.Encoded(), "application/vnd.oci.image.index.v1+json", idx)
+	}
+	// filters: 0 = type a, 1 = type b, 2 = the annotation (only b has it), 3 = no restriction
+	nf := zzInt("filters", 1, 2)
+	want := []bool{false, false}
+	var opts []ImageOpts
+	for k := 0; k < nf; k++ {
+		switch zzInt("filter_kind", 0, 3) {
+		case 0:
+			opts = append(opts, ImageWithReferrers(scheme.WithReferrerMatchOpt(descriptor.MatchOpt{ArtifactType: types[0]})))
+			want[0] = true
+		case 1:
+			opts = append(opts, ImageWithReferrers(scheme.WithReferrerMatchOpt(descriptor.MatchOpt{ArtifactType: types[1]})))
+			want[1] = true
+		case 2:
+			opts = append(opts, ImageWithReferrers(scheme.WithReferrerMatchOpt(descriptor.MatchOpt{Annotations: map[string]string{"vnd.example.kind": "x"}})))
+			want[1] = true
+		default:
+			opts = append(opts, ImageWithReferrers())
+			want[0], want[1] = true, true
+		}
+	}
+	ra.OnCommit = func(kind, repo, dg string, body []byte) {
+		if repo != "tgt" {
+			zzFail("C03_copy_writes_only_to_the_target")
+		}
+		if kind == "manifest" {
+			zzAssert(ra.Repo(repo).RefsPresent(body), "C04_children_before_parents")
+		}
+	}
+	rc := New(WithRegOpts(reg.WithTransport(&http.Transport{})), WithSlog(slog.New(slog.NewTextHandler(io.Discard, nil))))
+	ctx := context.Background()
+	err := rc.ImageCopy(ctx, rSrc, rTgt, opts...)
+	ra.OnCommit = nil
+	zzAssert(err == nil, "C03_copy_without_faults_succeeds")
+	if err != nil {
+		return
+	}
+	zzReach("filtered_copy_succeeded")
+	tgt := ra.Repo("tgt")
+	zzAssert(tgt.Tags["v1"] == w.top.Digest.String(), "C03_target_tag_is_source_digest")
+	rl, lerr := rc.ReferrerList(ctx, rTgt.SetDigest(w.top.Digest.String()))
+	zzAssert(lerr == nil, "C03_referrers_listed_at_target")
+	for i := range types {
+		if !want[i] {
+			continue
+		}
+		zzReach("referrer_selected")
+		b, ok := tgt.Manifests[artDigs[i]]
+		_, ok1 := tgt.Blobs[blobDigs[i]]
+		_, ok2 := tgt.Blobs[emptyDig]
+		zzAssert(ok && string(b) == string(arts[i]) && ok1 && ok2, "C03_selected_referrer_copied_with_its_content")
+		n := 0
+		for _, d := range rl.Descriptors {
+			if d.Digest.String() == artDigs[i] {
+				n++
+			}
+		}
+		zzAssert(n == 1, "C03_selected_referrer_listed_once_at_target")
 	}
 }
